@@ -49,7 +49,6 @@ func runC01(c *Ctx) {
 	c.Rule("RESORT", "compiled files are put back into target-path order before the walk", 2)
 	c.Rule("IMPORT-FLAG", "a file is marked import iff it is not one of the targeted paths", 2)
 	c.Rule("DUP-VALIDATION", "an image holds each path once and one commit per module", 2)
-	c.Rule("WKT-FALLBACK", "built-in well-known types are used only when the workspace does not supply the file", 2)
 	c.Rule("LOCKSET", "the parser accessor handler's maps are accessed under its lock", 8)
 	c.Rule("DIAG-PATH", "compile errors are reported with the user's path and stop the build", 3)
 	c.Rule("TARGET-TABLE", "the path/exclude-path target decision has the documented truth table", 2)
@@ -179,60 +178,7 @@ func runC01(c *Ctx) {
 	}
 
 	// (5) WKT fallback
-	if op := p.Func("private/bufpkg/bufimage", "parserAccessorHandler.Open"); op != nil {
-		info := op.Info()
-		g := p.CFGOf(op.Decl.Body, info)
-		var getFile, wktGet, notExistTest ast.Node
-		var notExistIf *ast.IfStmt
-		ast.Inspect(op.Decl.Body, func(x ast.Node) bool {
-			switch y := x.(type) {
-			case *ast.CallExpr:
-				if sel, ok := y.Fun.(*ast.SelectorExpr); ok {
-					if sel.Sel.Name == "GetFile" {
-						getFile = y
-					}
-					if sel.Sel.Name == "Get" && strings.Contains(exprString(sel.X), "datawkt") {
-						wktGet = y
-					}
-				}
-			case *ast.IfStmt:
-				s := exprString(y.Cond)
-				if strings.Contains(s, "errors.Is") && strings.Contains(s, "ErrNotExist") && strings.HasPrefix(s, "!") {
-					notExistIf = y
-					notExistTest = y.Cond
-				}
-			}
-			return true
-		})
-		ok := getFile != nil && wktGet != nil && notExistTest != nil && g.Dominates(getFile, wktGet) && g.Dominates(notExistTest, wktGet)
-		if ok {
-			// the body of `if !errors.Is(err, ErrNotExist)` returns: the WKT lookup is unreachable from it
-			if len(notExistIf.Body.List) == 0 || g.Reachable(notExistIf.Body.List[0], wktGet) {
-				ok = false
-			}
-			// and the WKT lookup sits on the moduleErr != nil edge
-			onErr := false
-			for cur := p.Parent(wktGet); cur != nil && cur != op.Decl; cur = p.Parent(cur) {
-				if ifs, isIf := cur.(*ast.IfStmt); isIf && nonNilErrTested(info, ifs.Cond) != nil {
-					onErr = true
-				}
-			}
-			if !onErr {
-				ok = false
-			}
-		}
-		c.Ob("WKT-FALLBACK", "parserAccessorHandler.Open/order", op.Decl.Pos(), ok, true, "datawkt is consulted only after GetFile failed, and only past the errors.Is(err, fs.ErrNotExist) gate: %v", ok)
-		// the workspace file is returned when found: a success return of moduleFile exists after the error block
-		okRet := false
-		for _, r := range g.Returns() {
-			if len(r.Results) == 2 && isNilIdent(info, r.Results[1]) && strings.Contains(strings.ToLower(exprString(r.Results[0])), "modulefile") && !strings.Contains(strings.ToLower(exprString(r.Results[0])), "wkt") {
-				okRet = true
-			}
-		}
-		c.Ob("WKT-FALLBACK", "parserAccessorHandler.Open/workspace-wins", op.Decl.Pos(), okRet, false, "the workspace's own file is returned on the success path: %v", okRet)
-	} else {
-		c.Fail("WKT-FALLBACK", "parserAccessorHandler.Open", token.NoPos, "not found")
-	}
+	c01WktFallback(c, "WKT-FALLBACK")
 
 	// (6) lockset
 	ruleLockset(c, "LOCKSET", pk, "parserAccessorHandler", "lock")
@@ -781,4 +727,67 @@ func c01ImportFlag(c *Ctx) {
 		}
 	}
 	c.Ob("IMPORT-FLAG", "image-file-builder/non-import-set", token.NoPos, okW && n >= 1, true, "the set handed to the builder is filled (%d insertion(s)) only with Path() of elements of the caller's parameter (the sorted target files): %v %s", n, okW, why)
+}
+
+// c01WktFallback (WKT-FALLBACK; C01, and C10 because swallowing a duplicate-provider error here hides an ambiguity):
+// the parser's file accessor consults the built-in well-known types only after the module set failed to provide the
+// path, and only for a not-exist failure.
+func c01WktFallback(c *Ctx, rule string) {
+	c.Rule(rule, "built-in well-known types are used only when the workspace does not supply the file", 2)
+	p := c.P
+	if op := p.Func("private/bufpkg/bufimage", "parserAccessorHandler.Open"); op != nil {
+		info := op.Info()
+		g := p.CFGOf(op.Decl.Body, info)
+		var getFile, wktGet, notExistTest ast.Node
+		var notExistIf *ast.IfStmt
+		ast.Inspect(op.Decl.Body, func(x ast.Node) bool {
+			switch y := x.(type) {
+			case *ast.CallExpr:
+				if sel, ok := y.Fun.(*ast.SelectorExpr); ok {
+					if sel.Sel.Name == "GetFile" {
+						getFile = y
+					}
+					if sel.Sel.Name == "Get" && strings.Contains(exprString(sel.X), "datawkt") {
+						wktGet = y
+					}
+				}
+			case *ast.IfStmt:
+				s := exprString(y.Cond)
+				if strings.Contains(s, "errors.Is") && strings.Contains(s, "ErrNotExist") && strings.HasPrefix(s, "!") {
+					notExistIf = y
+					notExistTest = y.Cond
+				}
+			}
+			return true
+		})
+		ok := getFile != nil && wktGet != nil && notExistTest != nil && g.Dominates(getFile, wktGet) && g.Dominates(notExistTest, wktGet)
+		if ok {
+			// the body of `if !errors.Is(err, ErrNotExist)` returns: the WKT lookup is unreachable from it
+			if len(notExistIf.Body.List) == 0 || g.Reachable(notExistIf.Body.List[0], wktGet) {
+				ok = false
+			}
+			// and the WKT lookup sits on the moduleErr != nil edge
+			onErr := false
+			for cur := p.Parent(wktGet); cur != nil && cur != op.Decl; cur = p.Parent(cur) {
+				if ifs, isIf := cur.(*ast.IfStmt); isIf && nonNilErrTested(info, ifs.Cond) != nil {
+					onErr = true
+				}
+			}
+			if !onErr {
+				ok = false
+			}
+		}
+		c.Ob(rule, "parserAccessorHandler.Open/order", op.Decl.Pos(), ok, true, "datawkt is consulted only after GetFile failed, and only past the errors.Is(err, fs.ErrNotExist) gate: %v", ok)
+		// the workspace file is returned when found: a success return of moduleFile exists after the error block
+		okRet := false
+		for _, r := range g.Returns() {
+			if len(r.Results) == 2 && isNilIdent(info, r.Results[1]) && strings.Contains(strings.ToLower(exprString(r.Results[0])), "modulefile") && !strings.Contains(strings.ToLower(exprString(r.Results[0])), "wkt") {
+				okRet = true
+			}
+		}
+		c.Ob(rule, "parserAccessorHandler.Open/workspace-wins", op.Decl.Pos(), okRet, false, "the workspace's own file is returned on the success path: %v", okRet)
+	} else {
+		c.Fail(rule, "parserAccessorHandler.Open", token.NoPos, "not found")
+	}
+
 }
